@@ -18,7 +18,8 @@ EVIDENCE = dict(
          "reloaded; Trace_RVOptions checks assignment result, record bytes = Pack, reloaded values, exclusivity and "
          "bounds. Single assignments are also made by constructor keyword, and every seventh case runs with the library's loggers "
          "at DEBUG. non-trivial = at least one option differs from its default."
-         " Labels that spell an option's name (three spellings) on an exposed user-defined controller; an option written on a clone / on the original leaves the other object's options as they were.",
+         " Labels that spell an option's name (three spellings) on an exposed user-defined controller; an option written on a clone / on the original leaves the other object's options as they were."
+         " A child interpreter defines a subclass (one helper method) of every option-bearing class and assigns every option alone on it; the composed model RVSystem (focus options: SysSetOpt is the only action that changes an option) is simulated and explored-and-replayed with state injection.",
     explanation="complete over single options and over pairs within the stated value sets")
 
 
